@@ -54,6 +54,7 @@ class LocalEnv:
         # (hoisting a sub-expression into a const local, or inlining one, does not change any canonical form)
         self.alias = True
         self._ti = {}
+        self._use_count = None
         self.no_alias = self._mutated_locals(fn)
         for n in fn.nodes():
             k = n.get('k')
@@ -205,6 +206,33 @@ class LocalEnv:
 
     _CONTAINERS = ('std::map<', 'std::set<', 'std::vector<', 'std::unordered_', 'std::list<', 'std::queue<', 'std::deque<', 'std::multimap<', 'std::multiset<')
 
+    def pure_init(self, decl):
+        """does evaluating the initialiser do nothing but compute a value (no call that may create or change something)?"""
+        init = decl.get('init')
+        if not isinstance(init, dict):
+            return True
+        for x in _walk(init):
+            if x.get('k') == 'CXXNewExpr':
+                return False
+            if x.get('k') in ('CXXMemberCallExpr', 'CallExpr') and not (x.get('callee') or '').endswith(' const') and not (x.get('callee_name') or '').startswith('std::') and \
+                    not (x.get('callee_name') or '').rsplit('::', 1)[-1].startswith(('get_', 'is_')) and x.get('k') == 'CXXMemberCallExpr':
+                return False
+        return True
+
+    def _uses(self):
+        if self._use_count is None:
+            u = {}
+            seen = set()
+            for n in self.fn.nodes():
+                if n.get('k') == 'DeclRefExpr' and n.get('dloc'):
+                    key = (n['dloc'], n.get('loc'))          # one source occurrence may be dumped more than once (syntactic / semantic initialiser lists)
+                    if key in seen:
+                        continue
+                    seen.add(key)
+                    u[n['dloc']] = u.get(n['dloc'], 0) + 1
+            self._use_count = u
+        return self._use_count
+
     def is_alias(self, decl):
         """is this declared local replaced by its initialiser wherever it is used (role-less, pure, never modified, time-invariant)?"""
         d = decl.get('loc')
@@ -225,13 +253,17 @@ class LocalEnv:
                 if x.get('k') == 'MemberExpr' and x.get('member') in mm:
                     c = False
                     break
-                if x.get('k') == 'DeclRefExpr' and x.get('local') and x.get('dloc') in self.no_alias:
-                    c = False
+                if x.get('k') == 'DeclRefExpr' and x.get('local') and (x.get('dloc') in self.assigned or (x.get('dloc') in self.no_alias and x.get('dloc') in self.decls
+                                                                                                         and not (self.types.get(x.get('dloc')) or '').rstrip().endswith(('&', '*')))):
+                    c = False       # reads a local that is itself re-assigned / modified in place (objects reached through references are covered by the member test)
                     break
                 if x.get('k') == 'CXXMemberCallExpr' and not (x.get('callee') or '').endswith(' const') and not (x.get('callee_name') or '').startswith('std::') and \
                         not (x.get('callee_name') or '').rsplit('::', 1)[-1].startswith(('get_', 'is_')):      # get_x() / is_x() are the repository's accessors
-                    c = False       # a call that may create or change something (sat->new_var(), new_distance(..)): the local holds its RESULT
-                    break
+                    # a call that may create or change something (sat->new_var(), new_distance(..)): the local holds its RESULT;
+                    # naming a result that is used exactly once is still only a name
+                    if self._uses().get(dloc, 0) != 1:
+                        c = False
+                        break
                 if x.get('k') == 'CXXNewExpr':
                     c = False
                     break
